@@ -1,5 +1,5 @@
 (* Extraction of the C13 executable model (ExtrOcamlBasic only). coqc runs with cwd = /verif/coq. *)
 From Coq Require Import List NArith ZArith Extraction ExtrOcamlBasic.
-From Kenlm Require Import C13.InterpSpec C13.InterpModel C13.MergeVocabModel.
+From Kenlm Require Import C13.InterpSpec C13.InterpModel C13.MergeVocabModel C13.BseModel.
 Extraction Language OCaml.
-Extraction "extracted/c13_model.ml" merged_Z reunify_ok_Z merge_vocab Z.add.
+Extraction "extracted/c13_model.ml" merged_Z reunify_ok_Z merge_vocab Z.add encode decode encoded_length.
